@@ -1,11 +1,7 @@
-"""C14 - SystemClockLoop synchronisation state machine (structural clauses)."""
-from .common import AnalysisError, Report
+"""C14 - SystemClockLoop synchronisation state machine: loop() interpreted along every bounded schedule against a description of
+the protocol (acv/rules_C14b.py)."""
+from .common import Report
 from . import cxx
-from .cxx import int_type
-from .gnf import Canon, Poly
-from .ir import E, S, walk_stmts, walk_expr, all_exprs, stmt_exprs, show
-from .paths import Engine, Rule, path_of
-from .rules_C08 import null_test
 
 META = {
     'explanation': 'E-SEQ, typed, explicit-state: SystemClockLoop::loop() - with keepAlive(), getNow(), syncNow(), the constructors and '
@@ -27,71 +23,6 @@ META = {
     'assumptions': ['clang 14 parser', 'the reference and backup clocks are reached only through sendRequest / isResponseReady / readResponse / setNow',
                     'unsigned long is 32 bits wide on the targets (the parser runs with the LP64 model of the host)'],
 }
-
-SCL = 'ace_time::clock::SystemClockLoop'
-SC = 'ace_time::clock::SystemClock'
-CLOCK_WRITERS = ('syncNow', 'setNow', 'backupNow')
-CLOCK_FIELDS = ('this.mEpochSeconds', 'this.mLastSyncTime', 'this.mLastSyncMillis', 'this.mPrevMillis', 'this.mIsInit')
-
-
-def status_value(lib, e):
-    while e.k == 'cast':
-        e = e.a[2]
-    if e.k == 'const':
-        return e.a[0]
-    if e.k == 'var':
-        return lib.global_value(e.a[0])
-    return None
-
-
-def status_arms(lib, f, byval):
-    """The dispatch of loop() on mRequestStatus, as {status name: block}: a switch over the field, or a chain
-    if (status == A) {..} else if (status == B) {..} [else {..}] (either operand order).  -> (dispatch statement, arms)"""
-    def subject(e):
-        while e.k == 'cast':
-            e = e.a[2]
-        return path_of(e) == 'this.mRequestStatus'
-    sws = [s for s in walk_stmts(f.body) if s.k == 'switch' and subject(s.a[0])]
-    if len(sws) == 1:
-        arms = {}
-        for labels, blk in sws[0].a[1]:
-            for l in labels:
-                if l is None:
-                    arms['default'] = blk
-                else:
-                    v = status_value(lib, l)
-                    arms[byval.get(v, v)] = blk
-        return sws[0], arms
-
-    def test_of(cond):
-        c = cond
-        while c.k == 'cast':
-            c = c.a[2]
-        if c.k == 'bin' and c.a[0] == '==':
-            for x, y in ((c.a[1], c.a[2]), (c.a[2], c.a[1])):
-                if subject(x):
-                    return status_value(lib, y)
-        return None
-    for s in walk_stmts(f.body):
-        if s.k == 'if' and test_of(s.a[0]) is not None:
-            arms = {}
-            cur = s
-            while True:
-                v = test_of(cur.a[0])
-                if v is None:
-                    break
-                arms[byval.get(v, v)] = cur.a[1]
-                rest = [x for x in cur.a[2] if not (x.k == 'block' and not x.a[0])]
-                if len(rest) == 1 and rest[0].k == 'if' and test_of(rest[0].a[0]) is not None:
-                    cur = rest[0]
-                    continue
-                if rest:
-                    arms['default'] = rest
-                break
-            if len(arms) >= 2:
-                return s, arms
-    raise AnalysisError('%s: no dispatch over mRequestStatus found in loop() (neither a switch nor an if/else-if chain of equality tests)' % f.loc)
-
 
 def run(cfg):
     R = Report('C14', cfg)
